@@ -77,6 +77,10 @@ def fields():
         ('rd 65536:65536 label [ 100 ]', False, None), ('rd 1.2.3.4:65535 label [ 100 ]', True, {'fam': 'v4vpn', 'rd': '1.2.3.4:65535', 'labels': [100]}), ('rd 1.2.3.4:65536 label [ 100 ]', False, None),
         (f'rd {U32 + 1}:1 label [ 100 ]', False, None), (f'rd 65535:{U32 + 1} label [ 100 ]', False, None), ('rd banana label [ 100 ]', False, None), ('rd 1.2.3.256:1 label [ 100 ]', False, None), ('rd 65000:banana label [ 100 ]', False, None), ('rd 1.2.3:1 label [ 100 ]', False, None), ('rd -1:1 label [ 100 ]', False, None),
     ]  # fmt: skip
+    # no next hop at all: nothing but a flow rule can be announced without one, whatever else the definition holds
+    f['nonexthop'] = [('', False, None), ('label [ 100 ]', False, None), ('rd 65000:1 label [ 100 ]', False, None), ('label [ 100 ] path-information 5', False, None)]
+    # `attributes ... nlri` with prefixes of both address families: one next hop, one family - it cannot be sent as written
+    f['attrmixed'] = [('10.77.{n}.0/24 2001:db8:{n}::/48', False, None), ('2001:db8:{n}::/48 10.77.{n}.0/24', False, None), ('2001:db8:{n}::/48 10.77.{n}.0/24 10.78.{n}.0/24', False, None)]
     f['pathid'] = [('path-information 0', True, {'pid': 0}), (f'path-information {U32}', True, {'pid': U32}), (f'path-information {U32 + 1}', False, None), ('path-information -1', False, None), ('path-information 1.2.3.4', True, {'pid': 16909060}), ('path-information 1.2.3.256', False, None), ('path-information 1.2.3', False, None), ('path-information banana', False, None)]
     f['aggregator'] = [(f'aggregator {U32}:10.0.0.1', True, {'attrs': {'aggregator': [U32, '10.0.0.1']}}), (f'aggregator {U32 + 1}:10.0.0.1', False, None), (f'aggregator ( {U32}:10.0.0.1 )', True, {'attrs': {'aggregator': [U32, '10.0.0.1']}}), (f'aggregator ( {U32 + 1}:10.0.0.1 )', False, None), ('aggregator ( 65000:10.0.0.256 )', False, None), ('aggregator ( 65000 )', False, None)]
     f['originator'] = [('originator-id 255.255.255.255', True, {'attrs': {'originator': '255.255.255.255'}}), ('originator-id 1.2.3.256', False, None), ('originator-id banana', False, None)]
@@ -133,6 +137,9 @@ def more_fields(f: dict) -> None:
     ]  # fmt: skip
 
     f['flow'] += [
+        # a prefix the parser recognises as nothing (no length, not an address): refused, never a rule that lost the match
+        (('destination 2001:db8::1; destination-port =80;', 'discard;'), False, None), (('source banana; destination-port =80;', 'discard;'), False, None),
+        (('source 2001:db8::1; protocol =6;', 'discard;'), False, None),
         # match statements written against the component order: what is sent is ordered by component type (RFC 8955 4.2)
         (('source 10.0.0.1/32; destination 10.0.0.2/32;', 'discard;'), True, {'kind': 'flow', 'afi': 1, 'comps': [[1, ['10.0.0.2', 32, 0]], src4], 'ecs': d0}),
         (('packet-length =1500; protocol =6; source 10.0.0.1/32;', 'discard;'), True, {'kind': 'flow', 'afi': 1, 'comps': [src4, num(3, 6), num(10, 1500)], 'ecs': d0}),
@@ -272,6 +279,10 @@ def definition(cell, n: int):
         text = f'route {tok} next-hop {"2001:db8::9" if name == "mask6" else "10.0.0.9"} med {1000 + n}'
     elif name == 'nexthop':
         text = f'route 10.77.{n}.0/24 next-hop {tok} med {1000 + n}'
+    elif name == 'attrmixed':
+        text = f'attributes next-hop 10.0.0.9 med {1000 + n} nlri ' + tok.replace('{n}', str(n))
+    elif name == 'nonexthop':
+        text = f'route 10.77.{n}.0/24 med {1000 + n} {tok}'.rstrip()
     else:
         text = f'route 10.77.{n}.0/24 next-hop 10.0.0.9 med {1000 + n} {tok}'.rstrip()
         if name in ('med',):
